@@ -393,6 +393,21 @@ def fallbacks(ctx: Ctx):
         )
         ctx.check_expr("fallback", f"{short}::{cname}.{member}", e, want, "an unresolvable sort key (ValueError) falls back to the anchored payload order of the SAME dimension with the same empties and format")
         ctx.count("sort-by-value fallbacks")
+        # WHERE the sort values are evaluated: they are lazy, and it is their evaluation (an unknown measure keyword, a
+        # measure the response lacks, an element id that matches nothing) that raises the ValueError - inside the try
+        # body it is caught, anywhere else in the function it escapes and the partition raises instead of falling back
+        m = ctx.repo.lookup(ci, member)
+        trys = [t for t in ast.walk(m.node) if isinstance(t, ast.Try) and any(h.type is not None and "ValueError" in u(h.type) for h in t.handlers)]
+        suppliers = ("_element_values", "_subtotal_values")
+        reads = [n for n in ast.walk(m.node) if isinstance(n, ast.Attribute) and n.attr in suppliers and isinstance(n.value, ast.Name) and n.value.id == "self"]
+        where = f"{short}::{cname}.{member} [evaluation of the sort values]"
+        if not trys or not reads:
+            ctx.undecided("fallback.covers-evaluation", where, f"{len(trys)} try statement(s) catching ValueError, {len(reads)} read(s) of {suppliers}", "the sort values are evaluated inside the try body")
+            continue
+        covered = {id(x) for t in trys for st in t.body for x in ast.walk(st)}
+        outside = sorted({f"self.{n.attr} (line +{n.lineno - m.node.lineno})" for n in reads if id(n) not in covered})
+        ctx.ob("fallback.covers-evaluation", where, outside or f"{len(reads)} read(s), all inside the try body", "the sort values are evaluated inside the try body whose handler falls back", not outside,
+               "evaluated outside the try, the ValueError of an unresolvable sort key is not caught: the order raises instead of falling back to the payload order")
     ctx.require_min("sort-by-value fallbacks", 3)
 
 
